@@ -30,7 +30,8 @@ func init() {
 			"(SearchReq/Res, DescriptionReq/Res, ConnReq/Res, ConnStateReq/Res, DiscReq/Res, TunnelReq, TunnelRes, RoutingInd) x every cEMI kind it carries " +
 			"(L_Data.req/con/ind with application or control unit, L_Raw.req/con/ind, L_Busmon.ind, unsupported codes): (1) single-field-ranges - every scalar field over its full 8/16-bit range, the others at a base value; " +
 			"(2) boundary-product - the complete Cartesian product of the boundary alphabets {0,1,2,3F,40,7F,80,FE,FF} (octets), {0,1,FF,100,7FFF,8000,FFFF} (16 bit), five whole IPv4 addresses and the listed alternatives of the variable parts, across all fields jointly; " +
-			"(3) full-product for the services with at most three octet fields; (4) thorough only: pairwise-full-ranges - complete products of the full ranges of every pair of octet fields and of every octet x 16-bit pair inside one structure; " +
+			"(3) full-product for the services with at most three octet fields; (4) thorough only: pairwise-full-ranges - complete products of the full ranges of every pair of octet fields (every variant) and of the octet x 16-bit pairs inside one structure " +
+			"(HostInfo: Protocol x Port, Address[3] x Port; L_Data: Control1/Control2 x Source/Destination; device DIB: Medium/Status x Source/ProjectIdentifier; one variant per pair in rotation - each space's note lists them); " +
 			"(5) all 1024 TPCI/APCI combinations, every application data length 1..254, every additional-info length 0..255, every raw body length 0..300, every family count 0..20, every name length 0..29, every ISO 8859-1 character. " +
 			"Oracle: knxnet.Unpack(knxnet.AllocAndPack(v)) returns no error, consumes at most the encoding, yields the same Go type, a message whose MessageCode() is the reference code of the sent message type, and deeply equal fields (nil and empty slices identified). " +
 			"Second half (decode -> encode -> decode): every frame of refenc.Corpus and every single-octet substitution of every corpus frame (each position x 0..255); a byte string is judged when knxnet.Unpack accepts it, the decoded type is encodable and no reserved part is non-zero; " +
@@ -45,6 +46,7 @@ func init() {
 			"the decoder's consumed-length result is only required not to exceed the input (DESIGN oracle n <= len); encodings of which it consumed less (the CRD of a ConnRes is not read) are tallied under decoder_consumed_less_than_encoding",
 			"the reference codes of message types and service types come from refenc (written from the KNX layouts), not from the library's MessageCode()/Service() methods",
 			"boundary alphabets, not full products, cover joint variation of more than two fields and of 16-bit x 16-bit pairs (DESIGN §9)",
+			"second half: byte strings that are a description response whose DIB chain reaches a DIB of length 0 are not given to the decoder (on the unrepaired tree DescriptionBlock.Unpack never returns on them - C01's finding); they are counted under decode_encode_decode. A watchdog aborts with INFRA-ERROR if any other library call does not return within 20 s",
 		},
 	})
 }
@@ -113,6 +115,9 @@ func judgeRoundTrip(v *Val) (o rtOutcome) {
 	var enc []byte
 	if p, msg, site := guard(func() { enc = knxnet.AllocAndPack(sent) }); p {
 		return fail("panic:"+site, "encoding a %s value panicked in %s: %s", v.label(), site, msg)
+	}
+	if wouldLoop(enc) { // never produced by a correct encoder; the unrepaired decoder does not terminate on it
+		return fail("encoding-has-zero-length-DIB:"+v.label(), "the encoding of a %s value contains a description block of length 0: % x", v.label(), enc)
 	}
 	var got knxnet.Service
 	var n uint
@@ -259,6 +264,9 @@ func judgeStability(b []byte) (o stOutcome) {
 	if p, msg, site := guard(func() { enc = knxnet.AllocAndPack(sp) }); p {
 		return fail("panic:"+site, "re-encoding the decoded %s panicked in %s: %s", tn, site, msg)
 	}
+	if wouldLoop(enc) {
+		return fail("encoding-has-zero-length-DIB:"+tn, "the re-encoding of an accepted %s contains a description block of length 0: % x", tn, enc)
+	}
 	var v2 knxnet.Service
 	var n uint
 	if p, msg, site := guard(func() { n, err = knxnet.Unpack(enc, &v2) }); p {
@@ -389,7 +397,7 @@ func stabilitySpace(r *enumlib.Run, c *collector, ord int) {
 	var current [64]atomic.Value // per shard: *watched
 	type watched struct {
 		since time.Time
-		hex   string
+		input []byte
 	}
 	stop := make(chan struct{})
 	defer close(stop)
@@ -402,7 +410,7 @@ func stabilitySpace(r *enumlib.Run, c *collector, ord int) {
 			}
 			for i := range current {
 				if w, _ := current[i].Load().(*watched); w != nil && time.Since(w.since) > 20*time.Second {
-					fmt.Printf("INFRA-ERROR property=C02 a library call has not returned for 20 s on input %s (hang of the code under test; C01 covers termination)\n", w.hex)
+					fmt.Printf("INFRA-ERROR property=C02 a library call has not returned for 20 s on input %x (hang of the code under test; C01 covers termination)\n", w.input)
 					os.Exit(2)
 				}
 			}
@@ -420,9 +428,7 @@ func stabilitySpace(r *enumlib.Run, c *collector, ord int) {
 			orig, fname := corpus[fi].Bytes, corpus[fi].Name
 			buf := append([]byte(nil), orig...)
 			judge := func(caseIdx int64, b []byte) {
-				if caseIdx&0x3FF == 0 || caseIdx < int64(len(corpus)) {
-					current[shard%len(current)].Store(&watched{time.Now(), hex.EncodeToString(b)})
-				}
+				current[shard%len(current)].Store(&watched{time.Now(), append([]byte(nil), b...)})
 				o := judgeStability(b)
 				l.tally["decode_encode_decode:"+o.status]++
 				if o.f != nil {
